@@ -292,6 +292,41 @@ def _rec_args_ok(e, h, ex, value, plus=1, conv_any=False):
     return ok, (f"(= {e[2][0][1]} (+ {h['qi'][1]} {plus}))" if ok else "false")
 
 
+def replay_keys_filter_report(a):
+    """a FAILing clause whose query has a keys filter: the checks listed under the rule are the clause's own failures (each with the
+    clause's custom message and context) - the filter's per-key comparisons are not among them"""
+    exe = a.cli()
+    if not exe:
+        return {"reproduced": False, "note": "native build failed"}
+    data = '{"Resources": {"a1": {"Type": "Bar"}, "a2": {"Type": "Foo"}, "b1": {"Type": "Foo"}, "c1": {"Type": "Foo"}}}\n'
+    out = []
+    for rules, nfail in (("rule r {\n  Resources[ keys == /^a/ ].Type == 'Foo' <<msg>>\n}\n", 1),
+                         ("rule r {\n  Resources[ keys in ['a1', 'b1'] ].Type == 'Zed' <<msg>>\n}\n", 2),
+                         ("rule r {\n  Resources[ keys == /^a/ ] {\n    Type == 'Foo' <<msg>>\n  }\n}\n", 1)):
+        rc, rep, err = a.run_structured(exe, rules, [data])
+        if not (rep and isinstance(rep, list) and rep):
+            out.append({"rules_file": rules, "problem": "no report", "exit": rc})
+            continue
+        found = []
+
+        def walk(o):
+            if isinstance(o, dict):
+                for k, v in o.items():
+                    if k == "Clause" and isinstance(v, dict):
+                        for kind, body in v.items():
+                            found.append((body.get("context", ""), (body.get("messages") or {}).get("custom_message")))
+                    walk(v)
+            elif isinstance(o, list):
+                for v in o:
+                    walk(v)
+        walk(rep[0].get("not_compliant", []))
+        stray = [f for f in found if (f[1] or "") != "msg"]
+        if stray or len(found) != nfail:
+            out.append({"rules_file": rules, "failing_values_of_the_clause": nfail, "checks_listed": len(found),
+                        "listed_without_the_clause's_message": stray[:3]})
+    return {"reproduced": bool(out), "mismatches": out, "data": data}
+
+
 def q_dispatch(a):
     QP = enum_variants(a.src, "rules/exprs.rs", "QueryPart")
     PV = enum_variants(a.src, "rules/path_value.rs", "PathAwareValue")
@@ -672,12 +707,22 @@ def q_dispatch(a):
     keys_v, vals_v = field(ex, mapv, MVF.index("keys"), "Vec"), field(ex, mapv, MVF.index("values"), "IndexMap")
     P = a.P
     bad, nsel = [], 0
+    fbad, nkeycmp = [], 0
     for p in ex.paths:
         r = p.ret
         if p.outcome != "return" or r is None or r[0] != "enum":
             continue                                   # `_ => unreachable!()` needs real_binary_operation to return another kind: its own obligation
         evs = [e for e in p.events if e[0] == "call"]
         rbo = [e for e in evs if e[1] == "real_binary_operation"]
+        # C09: the key comparisons of a filter are not checks of the clause - they must be recorded under a Filter record (which the report
+        # builder does not list), like the comparisons of every other filter: start_record(c) .. real_binary_operation .. end_record(c, Filter(_))
+        for cmp_ev in rbo:
+            nkeycmp += 1
+            ci = p.events.index(cmp_ev)
+            opened = [e for e in p.events[:ci] if e[0] == "call" and e[1] == "start_record"]
+            closed = [e for e in p.events[ci + 1:] if e[0] == "call" and e[1] == "end_record" and len(e[2]) > 2 and e[2][2][0] == "variant" and e[2][2][2] == "Filter"]
+            okf = bool(opened) and (bool(closed) or f"(= {cmp_ev[3][2]} 1)" in p.pc)
+            fbad.append(f"(and {pc_term(p.pc)} (not {'true' if okf else 'false'}))")
         probs = []
         if len(rbo) > 1:
             probs.append("keys compared more than once")
@@ -738,7 +783,7 @@ def q_dispatch(a):
         for k, x in enumerate(exts):
             if not (k < len(recs) and recs[k][3][0] == "enum" and same(x[2][1], recs[k][3][3]["Ok"])):
                 probs.append("continuation results are not appended in order")
-        anyerr = "(or false " + " ".join(f"(= {e[3][2]} 1)" for e in rbo + recs + [x for x in evs if x[1] in (REC, "resolve_function")] if e[3][0] == "enum") + ")"
+        anyerr = "(or false " + " ".join(f"(= {e[3][2]} 1)" for e in rbo + recs + [x for x in evs if x[1] in (REC, "resolve_function", "start_record", "end_record")] if e[3][0] == "enum") + ")"
         good = f"(and true {' '.join(parts)} (=> (= {r[2]} 1) {anyerr}))"
         if probs and os.environ.get("VERIF_DEBUG"):
             print("keys-filter:", probs[:3])
@@ -769,6 +814,13 @@ def q_dispatch(a):
             a.candidates.append(c_)
     except Untranslatable as e:
         a.ob.items.append({"obligation": "query/dispatch/keys-filter/comparison-result-kind", "describe": str(e), "verdicts": {}, "status": "inconclusive", "model": None})
+    cf = a.discharge("query/dispatch/keys-filter/comparisons-under-a-filter-record", ex, fbad,
+                     f"`[ keys <op> v ]` on a map ({nkeycmp} key comparisons over all paths): the comparison of the keys is evaluated inside a record that is "
+                     "closed as RecordType::Filter - so that the per-key outcomes select values and are not listed as failing checks of the clause")
+    if cf:
+        cf["replay"] = replay_keys_filter_report(a)
+        cf["reproduced"] = cf["replay"].get("reproduced", False)
+        a.candidates.append(cf)
     finish("keys-filter/map", ex, bad,
            f"`[ keys <op> v ]` on a map ({nsel} selections over all paths; the outcome list of the key comparison arbitrary, <= 1 entry): the map's own "
            "key list is compared once, through this resolver; a selected value is what this map holds under the matching key (or an unresolved "
@@ -937,6 +989,6 @@ def replay_queries(a):
     return a.replay_cases(exe, data, cases)
 
 
-SITES = {"C01": [q_accumulate, q_accumulate_map, q_retrieve_index, q_map_resolved, q_filter_delegate, q_dispatch, q_variable_head, q_unresolved_value],
+SITES = {"C09": [q_dispatch], "C01": [q_accumulate, q_accumulate_map, q_retrieve_index, q_map_resolved, q_filter_delegate, q_dispatch, q_variable_head, q_unresolved_value],
          "C08": [q_dispatch],
          "C15": [q_variable_head], "C10": [q_unresolved_value, q_dispatch]}
